@@ -318,3 +318,13 @@ func ShaOf(bs []byte) string {
 	h := sha256.Sum256(bs)
 	return hex.EncodeToString(h[:8])
 }
+
+// RepoDir is where vkd/goag lives: /repo.  bin/mutest points VERIF_REPO at a scratch copy carrying a seeded
+// change (verifctl is then built against that copy through an alternate go.mod), so that testing a seed neither
+// touches /repo nor disturbs checks running against it.  Registered checks never set it.
+func RepoDir() string {
+	if d := os.Getenv("VERIF_REPO"); d != "" {
+		return d
+	}
+	return "/repo"
+}
